@@ -870,3 +870,10 @@ pub trait Idt {
 impl<X> Idt for X {
     type Same = X;
 }
+
+/// a generic wrapper whose NAME is the one the bound-family items use for themselves (`X`): a field of type
+/// `::dx_support::samename::X<T>` mentions the item's own name without referring to the item
+pub mod samename {
+    #[derive(Clone, Copy, Debug, Default, PartialEq, Eq, PartialOrd, Ord, Hash)]
+    pub struct X<T>(pub T);
+}
